@@ -12,7 +12,7 @@ PROPERTY = "C17"
 
 META = {
     "bounds": {
-        "quick": "4 base programs x every insertion line x 10 error kinds x 4 kinds of symbolic preamble (2 symbolic characters) x {main file, included file}",
+        "quick": "4 base programs x every insertion line x 11 error kinds x 4 kinds of symbolic preamble (2 symbolic characters) x {main file, included file}",
         "thorough": "same with 3 symbolic characters and two preambles stacked",
     },
     "outside": ["wording of the messages", "parser syntax errors (not in the property's list)", "preambles longer than the bound"],
@@ -42,9 +42,12 @@ ERRORS = {
     "invalid-char-bol": ("$", "scan", [0]),
     "unterminated-string": (".ascii 'abc", "scan", [7, 11]),
     "unterminated-string-data": (".text 'x", "scan", [6, 8]),
+    # '?' = symbolic character (any but newline and quote): the content of the unterminated string
+    "unterminated-string-any-content": (".ascii '??", "scan", [7, 10]),
 }
 
 NONL = [c for c in range(256) if c != 10]
+STRCHARS = [c for c in range(256) if c not in (10, 0x27)]
 
 
 def insertion_points(base):
@@ -116,8 +119,11 @@ def build(spec, cx):
     pre = preamble(spec, cx)
     chars = [ord(c) for c in head] + pre
     idx = len(chars)
-    chars += [ord(c) for c in stmt] + [10] + [ord(c) for c in tail]
-    return chars, idx, stmt
+    body = []
+    for k, c in enumerate(stmt):
+        body.append(cx.char(f"q{k}", STRCHARS) if c == "?" else ord(c))
+    chars += body + [10] + [ord(c) for c in tail]
+    return chars, idx, body
 
 
 def run(spec, cx):
@@ -211,7 +217,7 @@ def check(spec, cx, out):
     exp_line = sum(1 for x in is_nl if x)
     last_nl = max([i for i, x in enumerate(is_nl) if x], default=-1)
     line_start = last_nl + 1
-    exp_text = chars[line_start: idx] + [ord(c) for c in stmt]
+    exp_text = chars[line_start: idx] + list(chars[idx: idx + len(stmt)])
     col0 = idx - line_start
     if out[0] in ("no-error", "other-exception"):
         return [("error-reported-as-node-or-scan-error", z3.BoolVal(False))]
